@@ -52,6 +52,13 @@ def cases(tier, seed):
             d.update({"fields": ["temp", "density", "Z"], "payload": "affidx", "seed": seed,
                       "layout": [scope.layouts(len(b), 'idrev')[-1] for b in mesh["levels"]]})
             out.append({"desc": d, "w": len(mesh["levels"]) ** 2})
+        # fields of very different magnitudes, and non-finite values in OTHER cells of the boxes (corner cells, never the
+        # interior cell that is queried): the stored value of the queried cell is what comes back, for every field
+        d = dict(mesh)
+        d.update(list(scope.geometries(3))[(mi + seed) % 6])
+        d.update({"fields": ["temp", "density", "Z"], "payload": ["affidx*1e12", "affidx+hostile", "affidx*1e-15"], "seed": seed,
+                  "layout": [scope.layouts(len(b), 'idrev')[0] for b in mesh["levels"]]})
+        out.append({"desc": d, "w": len(mesh["levels"]) ** 2})
     # seven levels towards the far corner, twelve fields: FAB header lines longer than 100 bytes
     d = dict(scope.deep_corner_mesh())
     d.update(list(scope.geometries(3))[(seed + 1) % 6])
@@ -91,8 +98,11 @@ def run_case(case, workdir):
                             rec.fail("raised", sub, exc_text(val))
                             continue
                         exp = np.array([ref.data[lv][b][loc + (f,)] for f in fidx])
+                        # (accuracy relative to the largest finite magnitude of the field in the box: the query may go
+                        # through an interpolation filter over the whole box)
+                        tol = np.array([1e-9 * float(np.max(np.abs(ref.data[lv][b][..., f][np.isfinite(ref.data[lv][b][..., f])]))) for f in fidx]) + 1e-300
                         got = np.atleast_1d(np.asarray(val, dtype=float)).ravel()
-                        if got.shape != exp.shape or not np.all(np.abs(got - exp) <= 1e-6):
+                        if got.shape != exp.shape or not np.all(np.abs(got - exp) <= tol):
                             rec.fail("values", sub, "returned %r, stored %r" % (got.tolist(), exp.tolist()))
                         st2, val2 = call(lambda: reused[tag](*pt))
                         rec.exe([dh, lv, g, tag, "reused"], nontrivial=True)
@@ -100,7 +110,7 @@ def run_case(case, workdir):
                             rec.fail("history_raised", dict(sub, selector="re-used object"), exc_text(val2))
                         else:
                             got2 = np.atleast_1d(np.asarray(val2, dtype=float)).ravel()
-                            if got2.shape != exp.shape or not np.all(np.abs(got2 - exp) <= 1e-6):
+                            if got2.shape != exp.shape or not np.all(np.abs(got2 - exp) <= tol):
                                 rec.fail("history_dependent", dict(sub, selector="re-used object"),
                                          "a selector object queried before returned %r, stored %r" % (got2.tolist(), exp.tolist()))
         # outside the domain: every side, half a coarse cell and five cells out
